@@ -94,7 +94,7 @@ func init() {
 	const tableLevel = "Each table is a complete decision, over every valuation of its finite atoms, of one structural clause of the property on the current tree; cells the statement does not determine are don't-care. Necessary conditions of the behavioural statement, not the statement as a whole."
 	property(&Property{
 		ID:    "C01",
-		Rules: []string{"T7", "T8", "TA", "T-object", "T-array", "T-tree", "T-any", "T11"},
+		Rules: []string{"T7", "T8", "TA", "T-object", "T-array", "T-tree", "T-list", "T-any", "T11"},
 		Explain: "T7: the JSON-kind compatibility decision of a scalar document value against a scalar example node (same kind | integer for float | null only where nullable is present; skipped only under an enum rule), extracted from checkNotAnEnum for every document kind x example kind x presence of nullable/enum. T8: required-key registration in the compiler — a property becomes required iff it is not optional (optional absent and keys not optional by default, or optional:false); optional on a non-property is rejected; the registered key is the node's own. TA: ArrayNode.Child selects example element min(i, len-1) and rejects on an empty example array, for all orderings of i against len. T-object: the object validator per lexical event — a key removes exactly itself from the keys still owed, the object may end only when nothing is owed, a key the example names is validated against that property, an unknown key goes to key shortcuts, then additionalProperties, else is rejected at the key. T-array: an item is checked against the example element at the running index, which advances by one; array-end gives the item count to every item-count rule. T-tree: the live-candidate bookkeeping of Tree.FeedLeaves for 1..3 candidates and all per-candidate outcomes (reject iff all failed; failed ones dropped; completed ones step back to their parent; children spliced in). T-any/T11: type any swallows exactly one value by depth counting, IsOpening classifies the JSON events correctly.",
 		Assume: []string{
 			"each table decides one step (one lexical event, one call) for all valuations of its atoms; the composition of steps over a whole document (required-key dynamics across nested objects, duplicate keys, property order) is not decided",
@@ -106,7 +106,7 @@ func init() {
 	})
 	property(&Property{
 		ID:    "C02",
-		Rules: []string{"T3", "T4", "T6", "T9", "T14"},
+		Rules: []string{"T3", "T4", "T6", "T9", "T14", "T-cmp"},
 		Explain: "T3: Min/Max.Validate accept a probe iff probe >= min (> when exclusive) / probe <= max (< when exclusive) for all orderings and flag values, the probe being the parsed document number and the bound the rule's own number (exact comparison Number.Cmp is an ordering atom; the five comparison helpers are interpreted). T4: minLength/maxLength compare the length of the decoded string, minItems/maxItems the child count, precision the number of fractional digits of the parsed number, with the right comparator for every ordering. T6: a true exclusiveMinimum/Maximum makes exactly the matching bound exclusive, a false one is inert, the helper rule is removed. T9: nullable:false and const:false are removed by the compiler's filter and nothing else is; Const.Validate is inert when false and compares with the example when true. T14: ValidateLiteralValue runs every literal rule of the node exactly once on the document literal, except that a null admitted by nullable:true is accepted without running any other rule.",
 		Assume: []string{
 			"correctness of Number.Cmp's digit arithmetic, of string decoding, and of the regex/e-mail/URI/UUID/date predicates (standard library) is not decided",
@@ -131,7 +131,7 @@ func init() {
 	})
 	property(&Property{
 		ID:    "C10",
-		Rules: []string{"SA-N", "FL-1", "T3"},
+		Rules: []string{"SA-N", "FL-1", "FL-2", "EE-1", "T3", "T-cmp"},
 		Explain: "SA-N: the automaton of the numeral recogniser behind NewNumber (state functions interpreted abstractly, counters abstracted) is compared by product construction with the RFC 8259 number automaton over all 256 bytes in every reachable state pair, including where a numeral may end. FL-1: no library function holds a floating-point value or calls strconv float conversions/math/big (the only float helper, Number.ToFloat, has no library caller). T3: bounds are compared only through the exact comparison (Number.Cmp as an ordering atom) with the correct comparator.",
 		Assume: []string{
 			"correctness of the digit-string comparison and of exponent folding/zero trimming (arithmetic over unbounded digit strings), including negative zero, is not decided",
@@ -155,7 +155,7 @@ func init() {
 	})
 	property(&Property{
 		ID:    "C11",
-		Rules: []string{"MO", "PL-1", "PL-2", "PL-3"},
+		Rules: []string{"MO", "PL-1", "PL-2", "PL-3", "PL-4"},
 		Explain: "MO: every range over a Go map in the library (inventory on each run) is order-insensitive by construction (the body only inserts/deletes entries keyed by the iteration key, counts, calls functions that can neither panic nor write shared memory — decided by an effect summary over the call graph — or collects keys that are sorted before use) or is in the reviewed table with the reason why the order cannot reach a verdict, error code, position, AST or example; a reviewed loop whose exits/writes/effectful calls change is reported again. PL-1: no alias of a pooled buffer's storage is returned, stored or captured by a function that puts the buffer back (the Example() slice must not be overwritten by later calls). PL-2: every field of the pooled loader is assigned in reset(). PL-3: json.Document rewinds before and after Check/Len.",
 		Assume: []string{
 			"history independence beyond the enumerated once/pool/rewind objects and stability of returned AST values are not decided",
@@ -168,7 +168,7 @@ func init() {
 	})
 	property(&Property{
 		ID:    "C12",
-		Rules: []string{"SW-1", "PL-1", "OM-lock"},
+		Rules: []string{"SW-1", "SW-3", "PL-1", "PL-4", "OM-lock"},
 		Explain: "SW-1: no function reachable from (*Schema).validate or (*exampleBuilder).Build (VTA call graph; callbacks accounted at the call sites of higher-order helpers) stores to a field, slice element or map of a schema / constraint / AST type or to a package variable, except into objects it has just allocated — validation and example building only read the shared compiled schema. PL-1: the pooled example buffer's storage does not escape (the concurrent-Example race). OM-lock: the ordered maps hold their RWMutex around every access.",
 		Assume: []string{
 			"compile-time sharing of added types between root schemas (in-place allOf expansion of an added type used by two roots) is NOT covered by these rules — a known weakness of the pinned tree that the property names",
@@ -193,7 +193,7 @@ func init() {
 	})
 	property(&Property{
 		ID:    "C03",
-		Rules: []string{"T10", "T-tree", "T-object", "T-any"},
+		Rules: []string{"T10", "T-tree", "T-list", "T-object", "T-any"},
 		Explain: "T10: the additionalProperties dispatch — rule text to mode (any/true, false, @type, a schema type name, anything else rejected) and mode to validator (any value / reject the key / kind check for object, array, scalar / the named type's validators), exhaustive over the declared modes. T-tree: union semantics of candidate validators — every live candidate receives each lexeme and a position is rejected only when every candidate failed (1..3 candidates x all outcomes). T-object: an unknown key is offered to the key shortcuts, then to additionalProperties, else rejected. T-any: additionalProperties any swallows one whole value.",
 		Assume: []string{
 			"which validators a types list expands to (transitive expansion, de-duplication by name), allOf inheritance and the matching of a key against a shortcut's string type are not decided",
